@@ -72,6 +72,21 @@ def shapes():
            ("Equals", ("Pow", r, L(F(2), REAL)), s_), ("Equals", ("Pow", x, L(2, INT)), y), ("LE", ("ToReal", ("Plus", x, y)), ("Plus", r, L(F(1, 2), REAL))),
            ("Equals", ("Ite", ("LT", x, y), ("Minus", y, x), ("Minus", x, y)), z), ("Iff", ("LE", x, y), ("Not", ("LT", y, x))),
            ("Equals", ("Plus", x, x, x), ("Times", L(3, INT), x)), ("Equals", ("Minus", ("Minus", x, y), z), ("Minus", x, ("Plus", y, z)))]
+    # comparisons against the ends of the signed / unsigned range and other shapes whose value may or may not depend
+    # on the symbol: what a partial model (no completion) may answer is decided by the skeleton's meaning alone
+    for w_ in (3, 1):
+        bw = ("BV", w_)
+        t = S("t%d" % w_, bw)
+        top, smin, smax = (1 << w_) - 1, 1 << (w_ - 1), (1 << (w_ - 1)) - 1
+        for k_ in sorted(set((0, 1, smax, smin, top))):
+            for ctor in ("BVSLE", "BVSLT", "BVULE", "BVULT"):
+                sh.append((ctor, t, L(k_, bw)))
+                sh.append((ctor, L(k_, bw), t))
+        sh += [("Equals", ("BVAnd", t, L(0, bw)), L(0, bw)), ("Equals", ("BVOr", t, L(top, bw)), L(top, bw)), ("Equals", ("BVMul", t, L(0, bw)), L(0, bw)),
+               ("Equals", ("BVUDiv", t, t), L(1, bw)), ("Equals", ("BVURem", t, t), L(0, bw)), ("Equals", ("BVSub", t, t), L(0, bw)),
+               ("BVULE", t, t), ("BVSLT", t, t), ("Equals", ("BVXor", t, t), L(0, bw))]
+    sh += [("LE", ("Times", x, L(0, INT)), L(0, INT)), ("LE", ("Minus", x, x), L(0, INT)), ("Or", a, ("Not", a)), ("Equals", ("Times", r, L(0, REAL)), L(0, REAL)),
+           ("LE", x, x), ("LT", x, x), ("Equals", ("Ite", a, x, x), x), ("Implies", a, a), ("And", a, L(False, BOOL)), ("Or", L(True, BOOL), a)]
     # arrays and functions over model values
     arr = S("arr", ("ARRAY", INT, INT))
     sh += [("Equals", ("Select", ("Store", ("Array", ("type", INT), L(0, INT)), x, y), z), y),
